@@ -11,17 +11,20 @@
 (*   wh    : full-rank matrices: one column (n = 2..3), two columns over {-1,0,2} (n = 3..NW, a    *)
 (*           1/ThinW sample), badly scaled two-column data, three columns over {-1,2} (n = 4..5,     *)
 (*           1/Thin3 sample, thorough tier); three whitening methods                               *)
+(*   small units (L4, L5, NormSmall, WS1..WS3): the same integer matrices with columns divided by 2^14..2^20   *)
+(*           (exact in binary floating point; the unit sh[j] is carried by the case): uniformly small data and one  *)
+(*           small-unit column next to a unit column                                                             *)
 (*   empty : fitting each of the nine estimators on 0 x p data, p = 0..2                           *)
 (* Dimensions that do not change the expected answer (float type, form, targets, weights,          *)
 (* constructor, whether the selection is empty) are derived from a hash of the case content.       *)
 (***************************************************************************************************)
 EXTENDS Integers, Sequences, TLC, Json
 
-CONSTANTS N1, N2, Thin2, PN, NW, ThinW, Thin3
+CONSTANTS N1, N2, Thin2, PN, NW, ThinW, Thin3, ThinS, Shifts
 
 VARIABLE case
 
-LOCAL S == INSTANCE Scaling WITH MaxN <- 0, MaxN2 <- 0, NegV <- 0, PosV <- 0, Sorted <- FALSE,
+LOCAL S == INSTANCE Scaling WITH MaxN <- 0, MaxN2 <- 0, NegV <- 0, PosV <- 0, Sorted <- FALSE, SmallSh <- 0,
                                  meth <- "", rng <- <<>>, X <- <<>>, pc <- "", par <- <<>>, k <- 0, outs <- <<>>
 
 RECURSIVE SumQ(_)
@@ -49,12 +52,16 @@ Deco(h) == [ft |-> IF h % 4 = 3 THEN "f32" ELSE "f64",
 SmallM(X) == \A i \in 1..Len(X) : \A j \in 1..Len(X[i]) : X[i][j] <= 9 /\ X[i][j] >= -9
 Ft(d, X) == IF SmallM(X) THEN d.ft ELSE "f64"
 
-LinCase(X, p, Z, v) ==
-  LET h == Hash(X) + VarIdx(v)
+\* sh[j]: column j is expressed in the unit 2^-sh[j] (the harness divides the integers by 2^sh[j], exactly)
+NoSh(p) == [j \in 1..p |-> 0]
+Uniform(sh) == \A j \in 1..Len(sh) : sh[j] = sh[1]
+LinCaseU(X, p, Z, v, sh) ==
+  LET h == Hash(X) + VarIdx(v) + SumQ(sh)
       d == Deco(h)
   IN [kind |-> "lin",
-      inp |-> [ft |-> Ft(d, X), form |-> d.form, tw |-> d.tw, wts |-> d.wts, ctor |-> d.ctor,
+      inp |-> [ft |-> Ft(d, X), form |-> d.form, tw |-> d.tw, wts |-> d.wts, ctor |-> d.ctor, sh |-> sh,
                meth |-> v[1], lo |-> v[2], hi |-> v[3], p |-> p, X |-> X, Z |-> Z, sel |-> SelFor(Len(X), h)]]
+LinCase(X, p, Z, v) == LinCaseU(X, p, Z, v, NoSh(p))
 
 V1 == -2..3
 V2 == {-1, 0, 2}
@@ -69,26 +76,39 @@ L2 == {LinCase(X, 2, ZFix(2), v) :
          X \in {Y \in UNION {[1..n -> [1..2 -> V2]] : n \in 2..N2} : Len(Y) = 2 \/ Hash(Y) % Thin2 = 0},
          v \in LinVariants}
 L3 == {LinCase([i \in 1..3 |-> <<a[i], b[i]>>], 2, << <<999, 1>>, <<0, 0>> >>, v) : a \in Cols3A, b \in Cols3B, v \in LinVariants}
+\* small units: a 1/ThinS sample of the one-column matrices (n = 2..3) in every unit of Shifts, and of the two-column
+\* matrices (n = 2) with one small-unit column next to a unit column / two different small units
+L4 == {LinCaseU(X, 1, ZFix(1), v, <<e>>) :
+         X \in {Y \in UNION {[1..n -> [1..1 -> V1]] : n \in 2..3} : IsSorted(Y) /\ Hash(Y) % ThinS = 0},
+         v \in LinVariants, e \in Shifts}
+L5 == {LinCaseU(X, 2, ZFix(2), v, sh) :
+         X \in {Y \in [1..2 -> [1..2 -> V2]] : Hash(Y) % ThinS = 1},
+         v \in LinVariants, sh \in {<<0, 17>>, <<20, 14>>}}
 
 \* norm scaling: row number q (0-based) over -2..3 with p columns = digits of q in base 6, minus 2
 Pow6(p) == IF p = 0 THEN 1 ELSE IF p = 1 THEN 6 ELSE IF p = 2 THEN 36 ELSE IF p = 3 THEN 216 ELSE 1296
 RowOf(q, p) == [j \in 1..p |-> ((q \div Pow6(j - 1)) % 6) - 2]
-NormCase(p, b, m) ==
+NormCaseU(p, b, m, e) ==                        \* e: every column in the unit 2^-e (a row direction needs one common unit)
   LET X == [i \in 1..6 |-> RowOf(6 * b + i - 1, p)]
-      h == Hash(X) + (IF m = "l1" THEN 0 ELSE IF m = "l2" THEN 1 ELSE 2)
+      h == Hash(X) + (IF m = "l1" THEN 0 ELSE IF m = "l2" THEN 1 ELSE 2) + e
       d == Deco(h)
   IN [kind |-> "norm",
-      inp |-> [ft |-> d.ft, form |-> d.form, tw |-> d.tw, wts |-> d.wts, meth |-> m, p |-> p,
+      inp |-> [ft |-> d.ft, form |-> d.form, tw |-> d.tw, wts |-> d.wts, meth |-> m, p |-> p, sh |-> [j \in 1..p |-> e],
                X |-> X, Z |-> <<>>, sel |-> IF h % 7 = 0 THEN <<>> ELSE <<6, 5, 4, 3, 2, 1, 6>>]]
+NormCase(p, b, m) == NormCaseU(p, b, m, 0)
 NormCases == UNION {{NormCase(p, b, m) : b \in 0..(Pow6(p) \div 6 - 1), m \in {"l1", "l2", "max"}} : p \in 1..PN}
+NormSmall == UNION {{NormCaseU(p, b, m, 20) : b \in 0..(Pow6(p) \div 6 - 1), m \in {"l1", "l2", "max"}} : p \in 1..2}
 
 WhMethods == {"pca", "zca", "chol"}
-WhCase(X, p, Z, m) ==
-  LET h == Hash(X) + (IF m = "pca" THEN 0 ELSE IF m = "zca" THEN 1 ELSE 2)
+\* f32 only where the conditioning is that of the integer lattice: one common unit (a power of two scales every
+\* intermediate result exactly); a small-unit column next to a unit column (condition number 2^28) only in f64
+WhCaseU(X, p, Z, m, sh) ==
+  LET h == Hash(X) + (IF m = "pca" THEN 0 ELSE IF m = "zca" THEN 1 ELSE 2) + SumQ(sh)
       d == Deco(h)
   IN [kind |-> "wh",
-      inp |-> [ft |-> Ft(d, X), form |-> d.form, tw |-> d.tw, wts |-> d.wts, ctor |-> d.ctor, meth |-> m, p |-> p,
-               X |-> X, Z |-> Z, sel |-> SelFor(Len(X), h)]]
+      inp |-> [ft |-> IF Uniform(sh) THEN Ft(d, X) ELSE "f64", form |-> d.form, tw |-> d.tw, wts |-> d.wts,
+               ctor |-> d.ctor, sh |-> sh, meth |-> m, p |-> p, X |-> X, Z |-> Z, sel |-> SelFor(Len(X), h)]]
+WhCase(X, p, Z, m) == WhCaseU(X, p, Z, m, NoSh(p))
 W1 == {WhCase(X, 1, ZFix(1), m) :
          X \in {Y \in UNION {[1..n -> [1..1 -> V1]] : n \in 2..3} : IsSorted(Y) /\ Y[1] # Y[Len(Y)]}, m \in WhMethods}
 W2 == {WhCase(X, 2, ZFix(2), m) :
@@ -97,6 +117,19 @@ W2 == {WhCase(X, 2, ZFix(2), m) :
 \* badly scaled second column (factor 1000), offset first column
 W3 == {WhCase([i \in 1..Len(Y) |-> <<Y[i][1] + 100, 1000 * Y[i][2]>>], 2, << <<100, 0>>, <<103, 2500>> >>, m) :
          Y \in {Y \in [1..4 -> [1..2 -> V2]] : Hash(Y) % (8 * ThinW) = 1 /\ S!FullRank(Y, 2)}, m \in WhMethods}
+
+\* small units (variances down to 1e-12: every clamp / guard of the code at 1e-8 is crossed):
+\* every one-column matrix of W1 in every unit of Shifts; a sample of the two-column matrices with both columns in
+\* the unit 2^-17 / 2^-20, and with one column in the unit 2^-14 next to a unit column
+WS1 == {WhCaseU(X, 1, ZFix(1), m, <<e>>) :
+          X \in {Y \in UNION {[1..n -> [1..1 -> V1]] : n \in 2..3} : IsSorted(Y) /\ Y[1] # Y[Len(Y)]}, m \in WhMethods, e \in Shifts}
+WS2 == {WhCaseU(X, 2, ZFix(2), m, sh) :
+          X \in {Y \in UNION {[1..n -> [1..2 -> V2]] : n \in 3..NW} : Hash(Y) % (4 * ThinW) = 3 /\ S!FullRank(Y, 2)},
+          m \in WhMethods, sh \in {<<17, 17>>, <<20, 20>>, <<0, 14>>, <<14, 0>>}}
+WS3 == IF Thin3 = 0 THEN {}
+       ELSE {WhCaseU(X, 3, ZFix(3), m, sh) :
+               X \in {Y \in UNION {[1..n -> [1..3 -> {-1, 2}]] : n \in 4..5} : Hash(Y) % (2 * Thin3) = 5 /\ S!FullRank(Y, 3)},
+               m \in WhMethods, sh \in {<<17, 17, 17>>, <<0, 14, 0>>}}
 
 \* three columns over {-1,2}, n = 4..5, a 1/Thin3 sample (Thin3 = 0: none)
 W4 == IF Thin3 = 0 THEN {}
@@ -116,11 +149,12 @@ W5 == {WhCase(X, 3, << <<0, 0, 0>>, <<2, -2, 15>> >>, m) :
 Estimators == {"std", "nomean", "nostd", "none", "minmax", "maxabs"} \cup WhMethods
 Empty == {[kind |-> "empty",
            inp |-> [ft |-> ft, form |-> IF p = 1 THEN "view" ELSE "owned", tw |-> 0, wts |-> FALSE, ctor |-> "named",
-                    meth |-> m, lo |-> 0, hi |-> 1, p |-> p]] : m \in Estimators, p \in 0..2, ft \in {"f64", "f32"}}
+                    sh |-> [j \in 1..p |-> 0], meth |-> m, lo |-> 0, hi |-> 1, p |-> p]] : m \in Estimators, p \in 0..2, ft \in {"f64", "f32"}}
 
 \* (a disjunction, not one union: TLC then enumerates the eight sets without normalising their union)
-Init == \/ case \in L1 \/ case \in L2 \/ case \in L3 \/ case \in NormCases
-        \/ case \in W1 \/ case \in W2 \/ case \in W3 \/ case \in W4 \/ case \in W5 \/ case \in Empty
+Init == \/ case \in L1 \/ case \in L2 \/ case \in L3 \/ case \in L4 \/ case \in L5 \/ case \in NormCases \/ case \in NormSmall
+        \/ case \in W1 \/ case \in W2 \/ case \in W3 \/ case \in W4 \/ case \in W5
+        \/ case \in WS1 \/ case \in WS2 \/ case \in WS3 \/ case \in Empty
 Next == UNCHANGED case
 Emit == PrintT("CASE " \o ToJson(case))
 =============================================================================
